@@ -1763,6 +1763,7 @@ pub fn from_reader_with_options<'a, R: std::io::Read + 'a, T: DeserializeOwned>(
     options: Options,
 ) -> Result<T, Error> {
     let cfg = crate::de::Cfg::from_options(&options);
+    let with_snippet = options.with_snippet;
     let crop_radius = options.crop_radius;
 
     // Wrap the reader in a SharedRingReader to capture context for error snippets
@@ -1784,7 +1785,7 @@ pub fn from_reader_with_options<'a, R: std::io::Read + 'a, T: DeserializeOwned>(
         // The ring retains the raw bytes in front of the transcoding decoder: for UTF-16 input
         // they are not text (a snippet cut from them shows every other character as a blank,
         // with the marker under the wrong one).
-        if crop_radius == 0 || shared_ring.starts_with_utf16_bom() {
+        if !with_snippet || crop_radius == 0 || shared_ring.starts_with_utf16_bom() {
             return e;
         }
         match shared_ring.get_recent() {
